@@ -186,6 +186,14 @@ func run(root string, c scase) observed {
 		p.Cmds = map[string]func(ts *testscript.TestScript, neg bool, args []string){
 			"ok":  probe("ok", true),
 			"bad": probe("bad", false),
+			// entries named like commands of the standard set: the documentation of
+			// Params.Cmds says it is "only consulted for commands not part of the
+			// standard set", so these are never called (if one is, it shows as an
+			// effect no reference run has, and exists / stop / hexit behave wrongly)
+			"exists": probe("custom-exists", true),
+			"stop":   probe("custom-stop", true),
+			"grep":   probe("custom-grep", false),
+			"hexit":  probe("custom-hexit", true),
 			"waitfile": func(ts *testscript.TestScript, neg bool, args []string) {
 				deadline := time.Now().Add(10 * time.Second)
 				for time.Now().Before(deadline) {
@@ -416,6 +424,8 @@ func family2() []string {
 		"cmp f f2", "cmp f g", "cmp f f", "cmp f nofile", "! cmp f g", "! cmp f f2", "cmp stdout f", "cmp f", "cmp stdout g", "cmp d f",
 		"cmpenv f fenv", "cmpenv g fenv", "! cmpenv f fenv", "! cmpenv g fenv",
 		"cp f h", "cp f g d", "cp f g nodir", "cp f g h", "cp stdout h", "cp nofile h", "! cp f h", "cp f", "cp f d", "cp f g",
+		// a copy onto the file itself (by name, through its directory, by another spelling)
+		"cp f f", "cp d/e d", "cp f ./f", "cp f d/../f",
 		"env K=x", "env K", "env", "! env K=x", "env K=y",
 		"exists f", "exists nofile", "! exists nofile", "! exists f", "exists -readonly f", "exists", "exists f nofile", "exists d", "! exists nofile f", "exists h", "exists -readonly d/e", "! exists -readonly f",
 		"grep x f", "grep z f", "! grep z f", "! grep x f", "grep -count=1 x f", "grep -count=2 x f", "! grep -count=1 x f", "grep -count=0 x f", "grep ( f", "grep x nofile", "grep x", "grep -count=3 ab m", "grep -count=2 ab m", "grep ^ab$ m", "grep -count=x ab m", "grep -count=3 ^ab$ m", "grep y h",
